@@ -150,6 +150,11 @@ def make_queries(tier):
         E.assume(bstr.all_bytes(sub.e, host_charset))
         # sub is empty or a label sequence ending with '.'
         E.assume(z3.Or(sub.e.n == bv(0), bstr.suffixof(bstr.lit("."), sub.e)))
+        # at most four sub-domain labels (keeps `split('.')` within the modelled number of parts; stated bound)
+        ndots = bv(0)
+        for i, c in enumerate(sub.e.b):
+            ndots = ndots + z3.If(z3.And(ult(bv(i), sub.e.n), c == b8(0x2e)), bv(1), bv(0))
+        E.assume(ule(ndots, bv(4)))
         dot = E.bool("trailing_dot")
         host = VStr(bstr.concat_many([sub.e, name.e, bstr.ite(dot.e, bstr.lit("."), bstr.lit(""))]))
         r = E.call("host_is_non_global", uri_with_host(host))
@@ -223,6 +228,8 @@ def make_queries(tier):
             names.append(n)
             hdrs.append(VTuple([n, VStr(bstr.lit("v%d" % i))]))
         cnt = E.int("header_count", 3)
+        # a HeaderMap keeps the values of one header together: equal names are adjacent
+        E.assume(z3.Implies(bstr.eq(names[0].e, names[2].e), bstr.eq(names[0].e, names[1].e)))
         hm = VStruct("HeaderMap", {"items": VVec(hdrs, cnt.e)})
         if E.mode == "symbolic":
             res = E.call("build_redirected_request", VStruct("Method", {}), hm, VVec([]), VStruct("Uri", {"host": none()}))
@@ -253,6 +260,7 @@ def make_queries(tier):
         is_redirect = [E.bool("hop%d_is_redirect" % i) for i in range(HOPS)]
         target_internal = [E.bool("hop%d_target_internal" % i) for i in range(HOPS)]
         transport_err = [E.bool("hop%d_transport_error" % i) for i in range(HOPS)]
+        loc_relative = [E.bool("hop%d_location_relative" % i) for i in range(HOPS)]  # "/next" vs "http://example.com/next"
         calls = []       # guards of transport calls, in order
         hop_targets = []  # (guard of "re-issue to this target", target_internal flag)
 
@@ -266,7 +274,8 @@ def make_queries(tier):
 
         def redirect_location(I_, args, pc):
             resp = args[0]
-            return opt(resp.fields["redirect"].e, VStr(bstr.lit("/next")))
+            k = bstr.cval(resp.fields["hop"].e)
+            return opt(resp.fields["redirect"].e, VStr(bstr.ite(loc_relative[k].e, bstr.lit("/next"), bstr.lit("http://example.com/next"))))
 
         def resolve_target(I_, args, pc):
             return ok(VStruct("Uri", {"host": some(VStr(bstr.lit("h"))), "marker": VInt(len(hop_targets))}))
@@ -319,7 +328,7 @@ def replay_redirects(E):
     hops = []
     for i in range(12):
         hops.append({"redirect": bool(mi.get("hop%d_is_redirect" % i, False)), "internal": bool(mi.get("hop%d_target_internal" % i, False)),
-                     "error": bool(mi.get("hop%d_transport_error" % i, False))})
+                     "error": bool(mi.get("hop%d_transport_error" % i, False)), "relative": bool(mi.get("hop%d_location_relative" % i, False))})
     r = E.native("redirect_chain", [bool(mi["allow_redirects"]), hops])
     n = r["calls"]
     E.prove("at most eleven transport calls (the request plus ten redirects)", z3.BoolVal(n <= 11))
@@ -357,7 +366,24 @@ def _headers_iter(I, args, pc):
     return VIter(args[0].fields["items"])
 
 
+def _headers_into_iter(I, args, pc):
+    """HeaderMap::into_iter: (Some(name), value) for the first value of a header, (None, value) for further values of
+    the same header (values of one header are adjacent: the query assumes equal names are adjacent in the list)"""
+    from symex import VIter
+    items = args[0].fields["items"]
+    out = []
+    for i, it in enumerate(items.items):
+        name, val = it.items
+        if i == 0:
+            out.append(VTuple([some(name), val]))
+        else:
+            same = bstr.eq(name.e, items.items[i - 1].items[0].e)
+            out.append(VTuple([opt(z3.Not(same), name), val]))
+    return VIter(VVec(out, items.n))
+
+
 OVERRIDES.update({
+    "HeaderMap::into_iter": _headers_into_iter,
     "Request::builder": _req_builder,
     "Builder::method": _builder_passthrough,
     "Builder::uri": _builder_passthrough,
